@@ -52,6 +52,7 @@ func other(role string) string {
 
 // implProtect: EncodeEncrypt with a scripted random source -> "((ok xoctets) left)" | "(err left)" | "fault"
 func implProtect(k *security.IKESAKey, role string, m *SX, script []byte, fails []int) (out string, wire []byte) {
+	wdNote("protect-"+role, 0, script, m)
 	out = run(func() string {
 		gm := goMsg(m)
 		var res string
@@ -72,6 +73,7 @@ func implProtect(k *security.IKESAKey, role string, m *SX, script []byte, fails 
 // implUnprotect: DecodeDecrypt -> "((ok <msg>) (calls ...))" | "(err (calls ...))" | "(fault (calls ...))"
 // hdr: "nohdr" | "parsed" (ParseHeader of the same octets)
 func implUnprotect(k *security.IKESAKey, role string, raw []byte, hdr string) string {
+	wdNote("unprotect-"+role+"-"+hdr, 0, raw, nil)
 	var log *[]string
 	if k != nil {
 		log = installSpy(k)
@@ -168,7 +170,29 @@ func genSkCase(r *Rng, si int) skCase {
 		inner := r.Pick([]int{65471, 65472, 65480, 65487, 65487, 65488, 65500})
 		m = L(A("msg"), genHeader(r), L(L(A("v"), Hx(r.Bytes(inner-4)))))
 	}
-	return skCase{s, genKeys(r, s), []string{"i", "r"}[r.Intn(2)], m, scriptFor(r, 32)}
+	return skCase{s, pooledKeys(r, s), []string{"i", "r"}[r.Intn(2)], m, scriptFor(r, 32)}
+}
+
+// pooledKeys: half of the cases re-use one of a few earlier key sets of the same suite, so that a long-lived SA object
+// (caseSA) sees a HISTORY of unrelated messages - longer ones before shorter ones, both directions, forged ones in
+// between - and not only the few operations of one case
+var skKeyPool = map[string][]keyset{}
+
+func pooledKeys(r *Rng, s suite) keyset {
+	if !solo() {
+		return genKeys(r, s)
+	}
+	p := skKeyPool[s.String()]
+	if len(p) > 0 && r.Chance(1, 2) {
+		return p[r.Intn(len(p))]
+	}
+	k := genKeys(r, s)
+	if len(p) < 3 {
+		skKeyPool[s.String()] = append(p, k)
+	} else {
+		p[r.Intn(len(p))] = k
+	}
+	return k
 }
 
 func modelSA(c *Ctx, id string, k skCase) error {
@@ -226,7 +250,7 @@ func unprotectBoth(c *Ctx, k skCase, role string, raw []byte, hdr string, what s
 	if err != nil {
 		return "", err
 	}
-	impl := implUnprotect(sa, role, exact(raw), hdr)
+	impl := implUnprotect(sa, role, rx(raw), hdr)
 	c.R.ImplRuns++
 	if err := modelSA(c, "u", k); err != nil {
 		return "", err
@@ -773,6 +797,7 @@ func runC17(c *Ctx) error {
 		hist := []string{}
 		var justAccepted []byte // a genuine datagram the long-lived object accepted in the previous step
 		var justRole string
+		var lastChild []string // transforms and nonce of the previous Child SA derivation of this history
 		for step := 0; step < n; step++ {
 			var op, implLong, implFresh, model string
 			choice := rng.Intn(5)
@@ -791,8 +816,8 @@ func runC17(c *Ctx) error {
 				role := justRole
 				justAccepted = nil
 				op = fmt.Sprintf("(unprotect %s %s nohdr)", role, hx(raw))
-				implLong = implUnprotect(long, role, raw, "nohdr")
-				implFresh = implUnprotect(fresh(), role, raw, "nohdr")
+				implLong = implUnprotect(long, role, rx(raw), "nohdr")
+				implFresh = implUnprotect(fresh(), role, rx(raw), "nohdr")
 				model, err = c.M.Ask(fmt.Sprintf("(unprotect long %s %s nohdr)", role, hx(raw)))
 				if err != nil {
 					return err
@@ -817,7 +842,7 @@ func runC17(c *Ctx) error {
 				}
 				if wire != nil {
 					// accepted by a fresh peer in the opposite role
-					got := implUnprotect(fresh(), other(role), wire, "nohdr")
+					got := implUnprotect(fresh(), other(role), rx(wire), "nohdr")
 					if !strings.HasPrefix(got, "((ok") {
 						r.Add(Finding{Kind: "instance", What: "a message protected late in a history is not accepted by a fresh peer", Case: strings.Join(append(hist, op), " "), Expected: "((ok ...", Observed: got})
 					}
@@ -835,8 +860,8 @@ func runC17(c *Ctx) error {
 				}
 				hdr := []string{"nohdr", "parsed"}[rng.Intn(2)]
 				op = fmt.Sprintf("(unprotect %s %s %s)", other(role), hx(wire), hdr)
-				implLong = implUnprotect(long, other(role), wire, hdr)
-				implFresh = implUnprotect(fresh(), other(role), wire, hdr)
+				implLong = implUnprotect(long, other(role), rx(wire), hdr)
+				implFresh = implUnprotect(fresh(), other(role), rx(wire), hdr)
 				model, err = c.M.Ask(fmt.Sprintf("(unprotect long %s %s %s)", other(role), hx(wire), hdr))
 				if err != nil {
 					return err
@@ -860,8 +885,8 @@ func runC17(c *Ctx) error {
 					raw = rng.Bytes(rng.Intn(80))
 				}
 				op = fmt.Sprintf("(unprotect %s %s nohdr)", role, hx(raw))
-				implLong = implUnprotect(long, role, raw, "nohdr")
-				implFresh = implUnprotect(fresh(), role, raw, "nohdr")
+				implLong = implUnprotect(long, role, rx(raw), "nohdr")
+				implFresh = implUnprotect(fresh(), role, rx(raw), "nohdr")
 				model, err = c.M.Ask(fmt.Sprintf("(unprotect long %s %s nohdr)", role, hx(raw)))
 				if err != nil {
 					return err
@@ -871,6 +896,16 @@ func runC17(c *Ctx) error {
 				}
 			default: // derive a Child SA
 				e, i, nonce := encrIDs[rng.Intn(3)], integs[rng.Intn(4)], rng.Bytes(rng.Pick([]int{0, 16, 32, 64}))
+				if lastChild != nil && rng.Chance(1, 2) {
+					// the shape of the previous derivation (transforms, nonce size) with other nonce octets: whatever an
+					// object remembers about the previous call is nearly - but not - applicable
+					e, i, nonce = lastChild[0], lastChild[1], rng.Bytes(len(lastChild[2]))
+					if rng.Chance(1, 3) && len(nonce) > 0 { // ... or differing in one octet only
+						nonce = append([]byte(nil), lastChild[2]...)
+						nonce[rng.Intn(len(nonce))] ^= 1 << uint(rng.Intn(8))
+					}
+				}
+				lastChild = []string{e, i, string(nonce)}
 				op = fmt.Sprintf("(child %s %s %s)", e, i, hx(nonce))
 				implLong = implChild(long, e, i, nonce)
 				implFresh = implChild(fresh(), e, i, nonce)
